@@ -19,7 +19,7 @@ META = dict(
          "entries linger until a sweep; IsBanned tests now < until, the sweep now > until; only successful mutations dump), a ghost logical ban list, "
          "invariants SweepTransparent / AnswersExact (every IsBanned(addr), IsBanned(subnet), GetBanned and IsDiscouraged answer equals 'an unexpired "
          "logical ban covers it' / 'discouraged since construction'); every transition of the bounded state graph (2 subnets x 3 addresses x "
-         "expiries over a 4-tick mock clock, relative / default / absolute bans incl. already-expired ones, restart from banlist.json) is replayed "
+         "expiries over a mock clock 0..3, relative / default / absolute bans incl. already-expired ones, restart from banlist.json) is replayed "
          "on a real BanMan with all non-mutating queries compared after each step.",
     note="Text codecs (base32, IPv6 text, checksums) are not modelled: the model only says which value must come back from print -> parse. "
          "Match is false for addresses CNetAddr::IsValid rejects (0.0.0.0, 255.255.255.255, ::, 2001:db8::/32, internal) even inside the prefix - modelled as coded. "
@@ -75,7 +75,7 @@ def run(ctx):
 
     # ---- 2. the ban list: invariants on the bounded model + every transition replayed on the real BanMan (E1)
     g = vflib.Graph(vflib.load_emitted(rb.emit_path))
-    tests = list(g.edge_tests()) if not quick else list(g.path_cover(max_len=80))
+    tests = list(g.path_cover(max_len=80))      # every transition is traversed by at least one path
     per_action = collections.Counter()
     for outs in g.out.values():
         for a, r, kt in outs:
@@ -100,10 +100,10 @@ def run(ctx):
 
     ctx.assumptions += ["finite boundary-valued address domain; values between the boundaries behave like their neighbours",
                         "text codecs are exercised but not modelled (the model predicts the value that comes back)",
-                        "BanMan: bounded model (2-3 subnets, 3-4 addresses, 4-5 clock ticks); discouragement filter far below capacity, false positives ignored"]
+                        "BanMan: bounded model (2-3 subnets, 3-4 addresses, clock 0..3); discouragement filter far below capacity, false positives ignored"]
     ctx.extra["observations"] = ["GetBanned lists an entry whose nBanUntil equals the current time although IsBanned already reports it as not banned "
                                  "(SweepBanned removes on now > until, IsBanned tests now < until): a one-second window, modelled as coded",
                                  "CSubNet::Match is false for addresses rejected by CNetAddr::IsValid even if they share the prefix (e.g. 0.0.0.0 in 0.0.0.0/0)"]
     return ctx.finish(level="model_checking", exhaustive=True,
-                      rule="every row of the boundary-valued table (non-trivial = match rows on a valid subnet with an address different from the base) and one "
-                           "implementation test per transition of the bounded BanMan state graph (non-trivial = queries / unbans / restarts / ticks with a ban in force before or after)")
+                      rule="every row of the boundary-valued table (non-trivial = match rows on a valid subnet with an address different from the base) and a set of "
+                           "paths (<= 80 steps) traversing every transition of the bounded BanMan state graph (non-trivial = queries / unbans / restarts / ticks with a ban in force before or after)")
